@@ -357,6 +357,12 @@ func main() {
 		}
 		return checkShouldBuild(c.Content, c.Tags, nil)
 	}
+	r.ConcurrentReplay = true
+	r.Noise = func(i int) {
+		tags := map[string]bool{"linux": i%2 == 0, "foo": i%3 == 0, "android": i%5 == 0}
+		imports.ShouldBuild([]byte(fmt.Sprintf("// +build foo,!linux n%d\n\npackage p\n", i)), tags)
+		imports.MatchFile(fmt.Sprintf("n%d_linux_arm_test.go", i), tags)
+	}
 	r.MaybeReplay()
 	th := r.Thorough()
 	st := &stats{}
